@@ -185,6 +185,9 @@ long hx_alloc_seq = 0;
 int64_t hx_live_bytes = 0;
 static int hx_nfault = 0; static int hx_fault_k[2]; static int hx_fault_fired = 0;
 
+/* engines that call the library outside hx_run() (configuration phase): fail the k-th allocation made with hx_in_lib == 1 (0 = none) */
+void hx_fault_arm(int k) { hx_alloc_seq = 0; hx_nfault = k > 0; hx_fault_k[0] = k; hx_fault_fired = 0; }
+int hx_fault_fired_get(void) { return hx_fault_fired; }
 #include <dlfcn.h>
 static void fault_note(void *pc0, void *pc1) {
     Dl_info a, b; const char *f0 = "?", *f1 = "?";
